@@ -98,10 +98,10 @@ type writeRec struct {
 }
 
 type treeView struct {
-	acc    int
-	mem    *memStorage
-	tree   objecttree.ObjectTree
-	have   int
+	acc  int
+	mem  *memStorage
+	tree objecttree.ObjectTree
+	have int
 }
 
 type env struct {
@@ -116,16 +116,16 @@ type env struct {
 	classes map[string]bool
 	// statistics
 	nViews, nPos, nNeg, nAttack, nAttackOpen, nRawRot, nWrites, nTreeIter, nSkipped, nForged int
-	removedChecked                                                                 bool
-	hadLeaveRequest, authored                                                      []bool
+	removedChecked                                                                           bool
+	hadLeaveRequest, authored                                                                []bool
 	// tree
 	realSt   objecttree.Storage
 	realTree objecttree.ObjectTree
-	root    *treechangeproto.RawTreeChangeWithId
-	otherId string
-	views   map[int]*treeView
-	changes []*treechangeproto.RawTreeChangeWithId
-	writes  []writeRec
+	root     *treechangeproto.RawTreeChangeWithId
+	otherId  string
+	views    map[int]*treeView
+	changes  []*treechangeproto.RawTreeChangeWithId
+	writes   []writeRec
 }
 
 func mod(a, n int) int    { return ((a % n) + n) % n }
